@@ -105,6 +105,64 @@ theorem declVar_sound {Γ : Env} {ρ : DEnv F} (he : EnvOK Γ ρ) {e : Expr} {o 
   | panic p => simp [StmtOK]
   | stuck => rw [hr] at hs; exact hs.elim
 
+/-- one left-hand name of a multi-name `:=`: `Γ₀`/`ρ₀` are the environments before the statement,
+`Γ₁`/`ρ₁` the current ones (they agree with the former on `x`) -/
+theorem storeShort_sound {Γ₀ Γ₁ : Env} {ρ₀ ρ₁ : DEnv F} (he₀ : EnvOK Γ₀ ρ₀) (he₁ : EnvOK Γ₁ ρ₁)
+    (hsame : ∀ ent, lookup Γ₀ x = some ent → lookup Γ₁ x = some ent)
+    {o : Operand} {v : Val F} {a : Bool × BType}
+    (h : shortTarget Γ₀ x o = .ok a) (hv : ValOK o v) :
+    StmtOK (if a.1 then (x, .var a.2) :: Γ₁ else Γ₁) (storeShort fs ρ₀ ρ₁ x v) := by
+  unfold shortTarget at h
+  cases hl : lookup Γ₀ x with
+  | some ent =>
+    cases ent with
+    | const ty c => simp only [hl] at h; cases h
+    | var t =>
+      simp only [hl] at h
+      obtain ⟨o', ha, h⟩ := (bind_ok_iff _ _ _).1 h
+      simp at h; subst h
+      obtain ⟨old, hd, hold⟩ := lookup_sound he₀ hl
+      obtain ⟨v', hv', ht⟩ := assignTo_var_sound fs ha hv
+      simp only [storeShort, hd, hasType_btype (valOK_var_iff.1 hold), hv', Res.bind_ok, StmtOK,
+        Bool.false_eq_true, if_false]
+      exact dupdate_sound he₁ (hsame _ hl) ht
+  | none =>
+    simp only [hl] at h
+    obtain ⟨t, ht, h⟩ := (bind_ok_iff _ _ _).1 h
+    obtain ⟨o', ha, h⟩ := (bind_ok_iff _ _ _).1 h
+    simp at h; subst h
+    have hdn : dlookup ρ₀ x = none := by
+      clear ha ht hv hsame he₁
+      induction Γ₀ generalizing ρ₀ with
+      | nil => cases ρ₀ with
+        | nil => rfl
+        | cons hd tl => simp [EnvOK] at he₀
+      | cons hd tl ih =>
+        obtain ⟨y, e⟩ := hd
+        cases ρ₀ with
+        | nil => simp [EnvOK] at he₀
+        | cons hd' tl' =>
+          obtain ⟨y', c, w⟩ := hd'
+          simp only [EnvOK] at he₀
+          obtain ⟨rfl, _, _, he'⟩ := he₀
+          simp only [lookup] at hl
+          simp only [dlookup]
+          by_cases hxy : x = y
+          · simp [hxy] at hl
+          · simp only [hxy, if_false] at hl ⊢
+            exact ih he' hl
+    obtain ⟨v', hv', hty⟩ := assignTo_var_sound fs ha hv
+    simp only [storeShort, hdn, inferType_sound ht hv, hv', Res.bind_ok, StmtOK, if_true, EnvOK]
+    exact ⟨trivial, rfl, valOK_var_iff.2 hty, he₁⟩
+
+theorem shortTarget_not_nil {Γ : Env} {x : Nat} {o : Operand} {a : Bool × BType}
+    (h : shortTarget Γ x o = .ok a) : o.ty ≠ .nil := by
+  unfold shortTarget at h
+  split at h
+  · obtain ⟨o', ha, _⟩ := (bind_ok_iff _ _ _).1 h; exact assignTo_not_nil ha
+  · cases h
+  · obtain ⟨t, ht, _⟩ := (bind_ok_iff _ _ _).1 h; exact inferType_not_nil ht
+
 theorem checkStmt_sound {Γ Γ' : Env} {ρ : DEnv F} (he : EnvOK Γ ρ) (s : Stmt)
     (h : checkStmt Γ s = .ok Γ') : StmtOK Γ' (exec fs ρ s) := by
   cases s with
@@ -165,6 +223,46 @@ theorem checkStmt_sound {Γ Γ' : Env} {ρ : DEnv F} (he : EnvOK Γ ρ) (s : Stm
       simpa only [Res.bind_ok, inferType_sound ht hs] using this
     | panic p => simp [StmtOK]
     | stuck => rw [hr] at hs; exact hs.elim
+  | shortDecl2 x y e₁ e₂ =>
+    simp only [checkStmt] at h
+    obtain ⟨o₁, ho₁, h⟩ := (bind_ok_iff _ _ _).1 h
+    obtain ⟨o₂, ho₂, h⟩ := (bind_ok_iff _ _ _).1 h
+    simp only [ite_error_left] at h
+    obtain ⟨hxy, h⟩ := h
+    obtain ⟨a, ha, h⟩ := (bind_ok_iff _ _ _).1 h
+    obtain ⟨b, hb, h⟩ := (bind_ok_iff _ _ _).1 h
+    simp only [ite_error_left, pure_ok_iff] at h
+    obtain ⟨_, h⟩ := h
+    subst h
+    simp only [exec]
+    have hs₁ := checkExpr_sound fs he e₁ ho₁ (shortTarget_not_nil ha)
+    have hs₂ := checkExpr_sound fs he e₂ ho₂ (shortTarget_not_nil hb)
+    cases hr₁ : eval fs ρ e₁ with
+    | ok v₁ =>
+      rw [hr₁] at hs₁
+      simp only [Res.bind_ok]
+      cases hr₂ : eval fs ρ e₂ with
+      | ok v₂ =>
+        rw [hr₂] at hs₂
+        simp only [Res.bind_ok]
+        have h1 := storeShort_sound fs (x := x) he he (fun _ h => h) ha hs₁
+        cases hst : storeShort fs ρ ρ x v₁ with
+        | ok ρ₁ =>
+          rw [hst] at h1
+          simp only [Res.bind_ok]
+          refine storeShort_sound fs (x := y) he h1 ?_ hb hs₂
+          intro ent hl
+          split
+          · simp only [lookup]
+            have : ¬ y = x := fun h => hxy h.symm
+            simp only [this, if_false]; exact hl
+          · exact hl
+        | panic p => simp [StmtOK]
+        | stuck => rw [hst] at h1; exact h1.elim
+      | panic p => simp [StmtOK]
+      | stuck => rw [hr₂] at hs₂; exact hs₂.elim
+    | panic p => simp [StmtOK]
+    | stuck => rw [hr₁] at hs₁; exact hs₁.elim
   | constDecl x t e =>
     cases t with
     | some t =>
